@@ -20,7 +20,8 @@ PLUMBING = ("copy", "proj", "tup", "index", "elem", "sel", "default")
 
 
 class RoleSpec(object):
-    def __init__(self, name, sinks, producers, neutral=None, follow_kinds=PLUMBING, stop=None):
+    def __init__(self, name, sinks, producers, neutral=None, follow_kinds=PLUMBING, stop=None, foreign=None):
+        self.foreign = set(foreign or ())   # seeds (sinks/producers) of *other* roles: reaching one is a cross-role flow
         self.name = name
         self.sinks = list(sinks)
         self.producers = set(producers)
@@ -51,7 +52,7 @@ class Blame(object):
         self.role, self.dst, self.src, self.kind, self.info, self.path = role, dst, src, kind, info, path
 
 
-def solve_roles(vfg, specs, max_rounds=6):
+def solve_roles(vfg, specs, max_rounds=1):
     removed = set()     # (dst, src, kind, info) edges blamed so far
     blames = []
     stats = {}
@@ -64,17 +65,26 @@ def solve_roles(vfg, specs, max_rounds=6):
                 if (dst, src, kind, info if _h(info) else None) in removed:
                     return False
                 return True
-            stop = (lambda n, spec=spec: n in spec.producers or (spec.stop is not None and spec.stop(n)))
+            stop = (lambda n, spec=spec: n in spec.producers or n in spec.foreign or (spec.stop is not None and spec.stop(n)))
             w = vfg.back(spec.sinks, follow, stop=stop)
-            # edges actually walked (node level)
+            # all followed edges among the visited nodes (node level, stack-insensitive)
             edges = {}
-            for st, par in w.parent.items():
-                if par is None:
+            for dst in w.nodes:
+                if dst in w.boundary:
                     continue
-                (dstst, kind, info) = par
-                edges.setdefault(dstst[0], set()).add((st[0], kind, info if _h(info) else None))
+                for (src, kind, info) in vfg.preds.get(dst, ()):
+                    if src not in w.nodes:
+                        continue
+                    k2 = kind
+                    if kind == "tup" and "tup" not in spec.follow_kinds:
+                        continue
+                    if kind != "tup" and not follow(src, kind, info, dst):
+                        continue
+                    if kind == "tup" and (dst, src, kind, info if _h(info) else None) in removed:
+                        continue
+                    edges.setdefault(dst, set()).add((src, kind, info if _h(info) else None))
             # liveness: reverse reachability from producers
-            live = set(n for n in w.nodes if n in spec.producers)
+            live = set(n for n in w.nodes if n in spec.producers and n not in spec.foreign)
             changed = True
             while changed:
                 changed = False
@@ -91,12 +101,23 @@ def solve_roles(vfg, specs, max_rounds=6):
                 for (src, kind, info) in srcs:
                     if src in live:
                         continue
-                    if _all_neutral(vfg, spec, src, edges):
+                    if src not in spec.foreign and _all_neutral(vfg, spec, src, edges):
                         continue
                     e = (dst, src, kind, info)
                     if e in removed:
                         continue
-                    new.append(Blame(spec.name, dst, src, kind, info, w.path(src)))
+                    # descend through pure plumbing (names, definitions, tuple literals) to the value(s) that are wrong
+                    work = [(dst, src, kind, info, 0)]
+                    while work:
+                        d2, s2, k2, i2, depth = work.pop()
+                        fi_, node_ = vfg.node_expr(s2)
+                        plumbing = s2[0] == "d" or isinstance(node_, (ast.Name, ast.Tuple, ast.Starred))
+                        nxt = [(a, b, c) for (a, b, c) in edges.get(s2, ()) if a not in live and not (a not in spec.foreign and _all_neutral(vfg, spec, a, edges))]
+                        if plumbing and nxt and depth < 12 and not any(a in spec.foreign for (a, b, c) in nxt):
+                            for (a, b, c) in nxt:
+                                work.append((s2, a, b, c, depth + 1))
+                        else:
+                            new.append(Blame(spec.name, d2, s2, k2, i2, w.path(s2)))
             stats[spec.name] = {"slice_nodes": len(w.nodes), "live": len(live), "producers_reached": len([n for n in w.nodes if n in spec.producers])}
         if not new:
             break
